@@ -51,9 +51,9 @@ Section Reader.
           -- destruct (elem_step iparse cur n l0 rest) as [k src consumed|src tok|src| |] eqn:Est; cbn; try reflexivity.
              ++ (* element *)
                 specialize (IH fi cur (n + N.of_nat consumed) (skipn consumed (l0 :: rest))
-                               (add_elem cur (Element k src (fi_path fi) (fi_chain fi)) doc)).
+                               (add_elem cur (Element k src (fi_path fi) (fi_chain fi) (elem_desc cur l0 rest)) doc)).
                 destruct (loop iparse inc fuel fi cur (n + N.of_nat consumed) (skipn consumed (l0 :: rest))
-                               (add_elem cur (Element k src (fi_path fi) (fi_chain fi)) doc)) as [d|e];
+                               (add_elem cur (Element k src (fi_path fi) (fi_chain fi) (elem_desc cur l0 rest)) doc)) as [d|e];
                   destruct (flat_loop iparse finc fuel fi cur (n + N.of_nat consumed) (skipn consumed (l0 :: rest))) as [out|e'];
                   cbn [rel_from rbind] in *; try assumption.
                 intros s. rewrite IH, sections_of_cons. unfold add_elem.
